@@ -588,6 +588,25 @@ def b_track_int28(tier, rnd):
             "cases": [(t, v) for t in _tracks()[:1] for v in INT28 + extra]}
 
 
+@battery("track_names")
+def b_track_names(tier, rnd):
+    import copy
+    names = ["", "a", "Untitled", "Lead guitar (left)", "x" * 127, "y" * 128, "z" * 129, "n" * 255, "m" * 256, "k" * 300,
+             "w" * 16383, "v" * 16384, "u" * 20000, "caf\u00e9", "\u266f", "tab\there", "nul\x00in", "\x7f"]
+    return {"rule": "5 pending delta times x names of length 0..20000 around 127/128, 255/256, 16383/16384, "
+                    "control characters, and non-ASCII names (refused)",
+            "cases": [(copy.deepcopy(t), n) for t in _tracks() for n in names]}
+
+
+@battery("track_blank_midi")
+def b_track_blank_midi(tier, rnd):
+    from mingus.midi.midi_track import MidiTrack
+    T = MidiTrack
+    bpms = [4, 5, 30, 60, 119, 120, 121, 240, 999, 1000, 60000000] + [rnd.randrange(4, 2000) for _ in range(40)]
+    return {"rule": "MidiTrack.__init__ on a blank instance: tempo omitted, or 51 tempi in 4..60000000",
+            "cases": [(T.__new__(T),)] + [(T.__new__(T), b) for b in bpms]}
+
+
 @battery("track_event")
 def b_track_event(tier, rnd):
     vals = (-1, 0, 1, 9, 15, 16, 127, 128)
